@@ -105,6 +105,14 @@ CHECKS = {
          "make_counterfactual_graph against a functional-SCM oracle (noise shared across worlds) on every ADMG with 2-3 nodes and sampled 3-4 node ADMGs with sampled conjunctions of "
          "up to 3 counterfactual events (non-reflexive subscripts).",
          TRUST + "; trusted mathematics: Shpitser & Pearl 2008 Lemmas 24, 25; the bounded part trusts y0vc/fscm.py", TECH + " (merge_pw) + bounded functional-SCM oracle", "DESIGN.md §5 C18"),
+ "C06": ("other", "Deductive part (thin): the summation ranges that ID lines 1 and 2 introduce are proved, for all graphs and queries, to be nodes of the user's graph (plain variables), "
+         "as part of the line contracts shared with C01/C02. The vocabulary of complete estimands (a recursive predicate over expression trees: leaves, subscripts, population tags) "
+         "is outside what the contracts in place express; it is decided by the labelled bounded stand-in: a syntactic vocabulary check of the estimands returned by ID (C01 query set), "
+         "IDC (C03 query set: only observational terms over graph nodes), ID* / IDC* (sampled events over every ADMG with 2-3 nodes and sampled 3-4 node ADMGs: every probability term "
+         "single-world), and the transport algorithm (population tags of declared domains, only declared experiments, no selection node in leaves or ranges) on DAGs with 3-4 nodes and "
+         "at most one bidirected edge away from outcomes and roots -- other shapes are left out because the unchanged library was reported (sub-agent, not reproduced deterministically) "
+         "to depend on the hash seed there.",
+         TRUST, "bounded syntactic vocabulary check on enumerated / sampled queries + contract-based proof of the ranges of ID lines 1-2", "DESIGN.md §5 C06"),
 }
 NA = {
  "C07": "not claimed: on the unchanged tree ID* violates the property, under the reading the property itself fixes, on a broad class that no contract within reach delimits -- 305 of 1,318 "
